@@ -65,6 +65,12 @@ pub struct Stall {
     pub kth: u32,
     pub max_steps: u64,
     pub epochs: u64,
+    /// scripted scenarios: the rule fires at the first hit at which `when()` holds (kth ignored)
+    pub when: Option<fn(u32) -> bool>,
+    /// re-arm after firing (the rule may fire again at a later hit)
+    pub repeat: bool,
+    /// scripted scenarios: the stall is released as soon as `until()` holds
+    pub until: Option<fn() -> bool>,
 }
 
 #[derive(Clone, Debug)]
@@ -91,6 +97,7 @@ struct StallState {
     max_steps: u64,
     epochs: u64,
     site: u16,
+    until: Option<fn() -> bool>,
 }
 
 pub struct ExecStats {
@@ -134,6 +141,8 @@ static MAIN_CV: Condvar = Condvar::new();
 
 /// Number of epoch advances of the default collector observed so far (fed by the event hook).
 pub static EPOCH_ADV: AtomicU64 = AtomicU64::new(0);
+/// Bit t is set while worker t is held at a stall rule (readable without the scheduler lock).
+pub static STALLED_MASK: AtomicU32 = AtomicU32::new(0);
 /// Optional per-step sampler, run under the scheduler lock at every yield point of a worker.
 pub static SAMPLER: Mutex<Option<fn(u32, u16, u64)>> = Mutex::new(None);
 static SAMPLER_ON: AtomicU8 = AtomicU8::new(0);
@@ -246,8 +255,12 @@ fn ser_yield(site: u16) {
         let (ref r, ref mut hits, ref mut fired) = inn.rules[i];
         if !*fired && r.site == site && (r.thread == ANY || r.thread == me) {
             *hits += 1;
-            if *hits == r.kth {
-                *fired = true;
+            let fire = match r.when {
+                Some(f) => f(*hits),
+                None => *hits == r.kth,
+            };
+            if fire {
+                *fired = !r.repeat;
                 if inn.stalled[me as usize].is_none() {
                     inn.stalled[me as usize] = Some(StallState {
                         since_step: inn.step,
@@ -255,7 +268,9 @@ fn ser_yield(site: u16) {
                         max_steps: r.max_steps,
                         epochs: r.epochs,
                         site,
+                        until: r.until,
                     });
+                    STALLED_MASK.fetch_or(1 << me, SeqCst);
                 }
             }
         }
@@ -287,6 +302,7 @@ fn ser_yield(site: u16) {
 impl Inner {
     fn release(&mut self, t: usize, why: &'static str) {
         if let Some(s) = self.stalled[t].take() {
+            STALLED_MASK.fetch_and(!(1 << t), SeqCst);
             let ep = EPOCH_ADV.load(Relaxed);
             self.stalls_fired
                 .push((s.site, self.step - s.since_step, ep - s.since_epoch, why));
@@ -296,7 +312,9 @@ impl Inner {
         for t in 0..self.n {
             let due = match &self.stalled[t] {
                 Some(s) => {
-                    if self.step - s.since_step >= s.max_steps {
+                    if s.until.map_or(false, |f| f()) {
+                        Some("condition")
+                    } else if self.step - s.since_step >= s.max_steps {
                         Some("steps")
                     } else if s.epochs > 0 && ep - s.since_epoch >= s.epochs {
                         Some("epochs")
@@ -381,6 +399,7 @@ fn finish(me: u32) {
     };
     inn.st[me as usize] = TS::Finished;
     inn.stalled[me as usize] = None;
+    STALLED_MASK.fetch_and(!(1 << me), SeqCst);
     inn.hash = mix(inn.hash, 0xF1 ^ ((me as u64) << 8));
     let next = inn.choose(me, false);
     inn.cur = next;
@@ -462,6 +481,7 @@ pub fn run_exec(cfg: ExecCfg, bodies: Vec<Box<dyn FnOnce() + Send + 'static>>) -
             ring: vec![(0, 0); 4096],
             ring_pos: 0,
         };
+        STALLED_MASK.store(0, SeqCst);
         *lock() = Some(inner);
     }
     let seed = cfg.seed;
@@ -587,4 +607,81 @@ pub fn stall_active() -> bool {
         return false;
     }
     lock().as_ref().map_or(false, |i| i.stalled.iter().any(|s| s.is_some()))
+}
+
+/// Scripted scenarios: the calling worker gives up its turn until `cond()` holds.
+/// Returns false if no other worker could run while the condition was still false.
+pub fn block_until(cond: impl Fn() -> bool) -> bool {
+    if MODE.load(Relaxed) != 1 {
+        let t0 = std::time::Instant::now();
+        while !cond() {
+            std::thread::yield_now();
+            if t0.elapsed() > Duration::from_secs(20) {
+                return false;
+            }
+        }
+        return true;
+    }
+    let me = WID.with(|w| w.get());
+    if me == NONE {
+        return cond();
+    }
+    let mut idle = 0u32;
+    loop {
+        if cond() {
+            return true;
+        }
+        let mut g = lock();
+        let inn = match g.as_mut() {
+            Some(i) => i,
+            None => return cond(),
+        };
+        inn.step += 1;
+        let ep = EPOCH_ADV.load(Relaxed);
+        inn.release_due(ep);
+        // pick any other eligible worker
+        let others: Vec<u32> = (0..inn.n as u32).filter(|&t| t != me && inn.eligible(t as usize)).collect();
+        if others.is_empty() {
+            // release the oldest stall of another worker, if any
+            let mut best: Option<(usize, u64)> = None;
+            for t in 0..inn.n {
+                if t as u32 != me && inn.st[t] == TS::Running {
+                    if let Some(s) = &inn.stalled[t] {
+                        if best.map_or(true, |(_, st)| s.since_step < st) {
+                            best = Some((t, s.since_step));
+                        }
+                    }
+                }
+            }
+            match best {
+                Some((t, _)) => {
+                    inn.release(t, "no-other-runnable");
+                    continue;
+                }
+                None => {
+                    idle += 1;
+                    if idle > 3 {
+                        return cond();
+                    }
+                    continue;
+                }
+            }
+        }
+        let next = others[inn.rng.below(others.len() as u64) as usize];
+        inn.switches += 1;
+        inn.hash = mix(inn.hash, ((me as u64) << 32) | (0xB10C << 8) | next as u64);
+        inn.cur = next;
+        CVS[next as usize].notify_one();
+        while g.as_ref().map_or(false, |i| i.cur != me) {
+            g = match CVS[me as usize].wait(g) {
+                Ok(g) => g,
+                Err(p) => p.into_inner(),
+            };
+        }
+    }
+}
+
+/// True if worker `t` is currently held at a stall rule.
+pub fn is_stalled(t: u32) -> bool {
+    STALLED_MASK.load(SeqCst) & (1 << t) != 0
 }
